@@ -169,20 +169,29 @@ class Ctx:
         self.notes = []
 
     # anchors ------------------------------------------------------------
-    def body(self, path):
+    def body(self, path, raw=False):
         b = self.facts.body(path)
         if b is None:
             raise Missing('function %s not found' % path)
         self.bodies_seen.add(path)
-        return b
+        if raw:
+            return b
+        from .inline import inlined_body
+        ib = inlined_body(self.facts, b)
+        if ib is not b:
+            self.note('helper functions not present on the reference tree were inlined into %s: %s' % (path, sorted(set(ib.j.get('inlined', [])))))
+        return ib
 
     def find(self, pat, floor=1):
         r = self.facts.find(pat)
         if len(r) < floor:
             raise Missing('expected at least %d functions matching /%s/, found %d' % (floor, pat, len(r)))
+        from .inline import inlined_body
+        out = []
         for b in r:
             self.bodies_seen.add(b.path)
-        return r
+            out.append(inlined_body(self.facts, b))
+        return out
 
     # reporting ----------------------------------------------------------
     def _key(self, rule, body, tag):
@@ -244,6 +253,11 @@ def run_rules(prop, facts, tier, config='default'):
         except Missing as e:
             cx.insts.append(Inst(name, ('%s/%s/anchor-missing#%s' % (prop, name, str(e))).replace(' ', '_'), False,
                                  'anchor missing: %s (fail closed)' % e, ''))
+        except Exception as e:  # a rule that cannot cope with the shape of the code fails closed, with a diagnosable message
+            import traceback
+            tb = traceback.extract_tb(e.__traceback__)[-1]
+            cx.insts.append(Inst(name, '%s/%s/rule-error' % (prop, name), False,
+                                 'rule could not analyse the current shape of the code (%s: %s at %s:%d); fail closed' % (type(e).__name__, e, os.path.basename(tb.filename), tb.lineno), ''))
         if len(cx.insts) == n0:
             cx.insts.append(Inst(name, '%s/%s/vacuous' % (prop, name), False, 'rule produced no instance (fail closed)', ''))
     return cx, mod
